@@ -24,18 +24,21 @@ func main() {
 	nops := fs.Int("ops", 40, "operations per history")
 	hostile := fs.Bool("hostile", false, "hostile stream")
 	only := fs.Int("case", -1, "run only this case index")
+	gov := fs.Bool("gov", false, "include governance token delisting")
+	dir := fs.Bool("directed", false, "boundary-directed stream")
 	fs.Parse(os.Args[2:])
 
 	w := bufio.NewWriterSize(os.Stdout, 1<<20)
 	defer w.Flush()
 	stats := map[string]int{}
+	directed = *dir
 	switch suite {
 	case "hub":
 		for i := 0; i < *n; i++ {
 			if *only >= 0 && i != *only {
 				continue
 			}
-			c, out := runHubCase(*seed*1000003+uint64(i), *nops, *hostile, stats)
+			c, out := runHubCase(*seed*1000003+uint64(i), *nops, *hostile, *gov, stats)
 			fmt.Fprintf(w, "hub\t%s\t%s\n", Str(c), Str(out))
 		}
 	default:
